@@ -30,16 +30,31 @@ pub fn property() -> Property {
             format!("a column whose spread (population std / range / max|.|) is positive but <= {}*eps in absolute terms falls into linfa's abs_diff_eq!(spread, 0) guard and is not judged for its normalisation post-condition (domain limit, DESIGN C16 R); exactly constant columns are judged as constant", linear::GUARD_FACTOR),
             "constant columns: standard scaling must use scale exactly 1 (centred only), min-max must map them to the range minimum, max-abs must leave an all-zero column zero (linfa doc comments and unit tests)".into(),
             "scales() of a fitted linear scaler must be positive (documented as the inverse of a standard deviation / range / max |.|)".into(),
-            "entries have magnitude 0 or within about 1e-12..1e12, so squares neither overflow nor underflow in f32".into(),
+            "generated entries are 0 or have magnitude within about 3e-13..7e12 (f32: ..7e9), so sums of squares neither overflow nor underflow; beyond that range NormScaler::l2 and the variances are limited by plain float overflow/underflow, which is not tested".into(),
             format!("whitening is judged only on training data with sample-covariance eigenvalues lambda_min > 0, sqrt((n-1) lambda_min) >= {:e} and lambda_max <= {:e} (linfa clamps singular values / inverse roots at the absolute value 1e-8; data near the clamp are a stated domain limit), and only where the covariance tolerance {}*eps*(n+p)*p*cond + 4*(32*eps*max|x|/sqrt(lambda_min))^2 is <= {:e}; other cases are counted as not judged", whiten::CLAMP_SINGULAR_MIN, whiten::CLAMP_EIGEN_MAX, whiten::K_COV, whiten::COV_TOL_MAX),
             "row selection must commute bit-for-bit for the element-wise scalers (same arithmetic on both sides, NaNs identified); for whitening (a matrix product) within twice the dot-product tolerance".into(),
             "an all-zero row given to the norm scaler must come back finite and, being a rescaling of the zero vector, all-zero".into(),
             "trusted base: ndarray, vengine::num (covariance, Jacobi eigenvalues), proptest".into(),
         ],
         subs: vec![
-            prop_sub("whiten", 9000, 240000, |t: Tier| gens::whiten_cases(t), whiten::check),
-            prop_sub("linear", 16000, 400000, |t: Tier| gens::linear_cases(t), linear::check),
-            prop_sub("norm", 8000, 200000, |t: Tier| gens::norm_cases(t), norm::check),
+            prop_sub("whiten", 100_000, 1_000_000, |t: Tier| gens::whiten_cases(t), whiten::check)
+                .chunks(16)
+                .require(&["method_pca", "method_zca", "method_cholesky", "elem_f32", "elem_f64", "transform_has_unseen_rows"]),
+            prop_sub("linear", 160_000, 1_600_000, |t: Tier| gens::linear_cases(t), linear::check)
+                .chunks(16)
+                .require(&[
+                    "zero_column",
+                    "constant_nonzero_column",
+                    "minmax_flipped_range",
+                    "minmax_degenerate_range",
+                    "single_training_row",
+                    "transform_has_unseen_rows",
+                    "elem_f32",
+                    "elem_f64",
+                ]),
+            prop_sub("norm", 80_000, 800_000, |t: Tier| gens::norm_cases(t), norm::check)
+                .chunks(8)
+                .require(&["has_zero_row", "norm_l1", "norm_l2", "norm_max", "elem_f32", "elem_f64"]),
             enum_sub("rejects", |_t: Tier| rejects::cases(), rejects::check).chunks(1),
         ],
     }
